@@ -107,18 +107,35 @@ def register(gen, T):
 
         # ---- what calculate_local looks at
         cf = normws(fn_body(ua, "calculate_for_function"))
-        body_only = bool(re.search(r'if let Some\(def\) = def \{ gather_usage_for_scope_block\(&def\.scope_block, &mut usage\); \}', cf))
-        mentions_defaults = 'default_expr' in cf or '.params' in cf
+        m = re.search(r'if let Some\(def\) = def \{(.*)\} usage$', cf)
+        if not m:
+            raise ExtractError("calculate_for_function: `if let Some(def) = def { … } usage` not found")
+        inner = m.group(1).strip()
+        body_rx = r'gather_usage_for_scope_block\(&def\.scope_block, &mut usage\);'
+        dflt_rx = (r'for param in &def\.params \{ if let Some\(default_expr\) = &param\.default_expr \{ '
+                   r'gather_usage_for_expression\(default_expr, &mut usage\); \} \}')
+        body_only = bool(re.search(body_rx, inner))
+        defaults = bool(re.search(dflt_rx, inner))
+        rest = re.sub(dflt_rx, '', re.sub(body_rx, '', inner)).strip()
+        if rest:
+            raise ExtractError(f"calculate_for_function gathers something unknown: {rest[:80]!r}")
         cl = normws(fn_body(ua, "calculate_local"))
         glob_default = bool(re.search(r'let id = GlobalId\(i as u32\); let usage = LocalUsageAnalysis::default\(\);', cl))
+        glob_init = bool(re.search(r'let id = GlobalId\(i as u32\); let mut usage = LocalUsageAnalysis::default\(\); '
+                                   r'gather_usage_for_init_opt\(&module\.global_registry\[i\]\.init, &mut usage\); '
+                                   r'let valid_insert = result \.insert\(UsageSymbol::GlobalVariable\(id\), usage\)', cl))
+        if glob_default == glob_init:
+            raise ExtractError("calculate_local: cannot tell whether global initialisers are gathered")
+        gio = normws(fn_body(ua, "gather_usage_for_init_opt"))
+        init_opt_ok = gio == "if let Some(init) = init { gather_usage_for_init(init, usage); }"
         cb_default = bool(re.search(r'let id = ConstantBufferId\(i as u32\); let usage = LocalUsageAnalysis::default\(\);', cl))
         fn_all = bool(re.search(r'for id in module\.function_registry\.iter\(\) \{ let usage = LocalUsageAnalysis::calculate_for_function\(id, module\);', cl))
-        out.append("/-- calculate_for_function gathers exactly the implementation's scope block -/\n"
+        out.append("/-- calculate_for_function gathers the implementation's scope block -/\n"
                    f"def functionBodyGathered : Bool := {lb(body_only)}\n"
-                   "/-- … and looks at parameter default expressions -/\n"
-                   f"def defaultArgumentsGathered : Bool := {lb(mentions_defaults)}\n"
-                   "/-- global variables get an empty local set (their initialisers are not analysed) -/\n"
-                   f"def globalInitialisersGathered : Bool := {lb(not glob_default)}\n"
+                   "/-- … and the default expressions of its parameters -/\n"
+                   f"def defaultArgumentsGathered : Bool := {lb(defaults)}\n"
+                   "/-- the entry of a global variable gathers its initialiser (through gather_usage_for_init_opt) -/\n"
+                   f"def globalInitialisersGathered : Bool := {lb(glob_init and init_opt_ok)}\n"
                    f"def cbuffersHaveEmptyUsage : Bool := {lb(cb_default)}\n"
                    f"def everyFunctionHasAnEntry : Bool := {lb(fn_all)}\n\n")
 
@@ -296,11 +313,42 @@ def register(gen, T):
         out.append(f"def globalParamAndArgumentShareName : Bool := {lb(same_name)}\n\n")
         # call sites and trampolines append the callee's list; parameters come after user parameters
         guc = normws(fn_body(gm, "generate_user_call"))
-        call_appends = bool(re.search(r'let mut args = generate_invocation_args\(arguments, context\)\?; append_arguments_for_globals\(&mut args, id, context\);', guc))
+        call_appends = bool(re.search(r'let mut args = generate_invocation_args\(arguments, context\)\?;.*append_arguments_for_globals\(&mut args, id, context\); let expr = ast::Expression::Call\(Box::new\(Located::none\(object\)\), type_args, args\);', guc))
+        fills = bool(re.search(
+            r'let mut args = generate_invocation_args\(arguments, context\)\?; let module = context\.module; '
+            r'if !context \.function_required_globals \.get\(&id\) \.unwrap\(\) \.is_empty\(\) '
+            r'&& let Some\(decl\) = module\.function_registry\.get_function_implementation\(id\) \{ '
+            r'for param in decl\.params\.iter\(\)\.skip\(arguments\.len\(\)\) \{ '
+            r'if let Some\(default_expr\) = &param\.default_expr \{ '
+            r'args\.push\(Located::none\(generate_expression\(default_expr, context\)\?\)\); \} \} \} '
+            r'append_arguments_for_globals\(&mut args, id, context\);', guc))
+        direct = bool(re.search(r'let mut args = generate_invocation_args\(arguments, context\)\?; append_arguments_for_globals\(&mut args, id, context\);', guc))
+        if fills == direct:
+            raise ExtractError("generate_user_call: cannot tell whether omitted default arguments are filled in")
+        out.append("/-- generate_user_call passes the default values of omitted arguments explicitly when the callee\n"
+                   "    receives parameters for globals -/\n"
+                   f"def callSitesFillDefaults : Bool := {lb(fills)}\n")
         tramp = normws(fn_body(gm, "generate_function_out_trampoline_body"))
         tramp_appends = bool(re.search(r'metal_lib_identifier\("true_type"\).*append_arguments_for_globals\(&mut params, id, context\);', tramp))
         gfi = normws(fn_body(gm, "generate_function_inner"))
-        order_ok = bool(re.search(r'for param in &decl\.params \{ params\.push\(generate_function_param\( param, false, trampoline_target, context, \)\?\); \} if trampoline_target \{ params\.push\(ast::FunctionParam \{ param_type: ast::Type::from\(metal_lib_identifier\("true_type"\)\),.*?\}\) \} let parameters_for_globals = context\.function_required_globals\.get\(&id\)\.unwrap\(\)\.clone\(\); for param in parameters_for_globals \{', gfi))
+        order_ok = bool(re.search(r'for param in &decl\.params \{ params\.push\(generate_function_param\( param, false, (?:trampoline_target|trampoline_target \|\| has_parameters_for_globals), context, \)\?\); \} if trampoline_target \{ params\.push\(ast::FunctionParam \{ param_type: ast::Type::from\(metal_lib_identifier\("true_type"\)\),.*?\}\) \} let parameters_for_globals = context\.function_required_globals\.get\(&id\)\.unwrap\(\)\.clone\(\); for param in parameters_for_globals \{', gfi))
+        no_defaults = bool(re.search(
+            r'let has_parameters_for_globals = !context \.function_required_globals \.get\(&id\) \.unwrap\(\) \.is_empty\(\);.*'
+            r'generate_function_param\( param, false, trampoline_target \|\| has_parameters_for_globals, context, \)', gfi))
+        old_defaults = bool(re.search(r'generate_function_param\( param, false, trampoline_target, context, \)', gfi))
+        if no_defaults == old_defaults:
+            raise ExtractError("generate_function_inner: cannot tell when parameter defaults are emitted")
+        gfp = normws(fn_body(gm, "generate_function_param"))
+        dis = bool(re.search(r'let default_expr = if let Some\(default_expr\) = &param\.default_expr \{ if disable_default \{ None \} else \{ Some\(generate_expression\(default_expr, context\)\?\) \} \} else \{ None \};', gfp))
+        out.append("/-- functions with parameters for globals (and trampoline targets) are emitted without parameter defaults -/\n"
+                   f"def noDefaultsWithImplicitParams : Bool := {lb(no_defaults and dis)}\n")
+        # initialisers of threaded statics are generated after function_required_globals is complete
+        late_init = bool(re.search(
+            r'\.function_required_globals \.insert\(id, required_globals\) \.is_none\(\); assert!\(valid_insert\); \} '
+            r'for i in 0\.\.context\.module\.global_registry\.len\(\) \{.*'
+            r'let generated_init = generate_initializer\(&def\.init, def\.type_id, context\)\?;', nag)) and \
+            not re.search(r'generate_initializer\(.*for id in context\.module\.function_registry\.iter\(\)', nag)
+        out.append(f"def staticInitialisersGeneratedLast : Bool := {lb(late_init)}\n")
         gft = normws(fn_body(gm, "generate_function_and_trampoline"))
         tramp_rule = bool(re.search(r'let has_out = sig \.param_types \.iter\(\) \.any\(\|p\| p\.input_modifier != ir::InputModifier::In\); let needs_trampoline = has_out && context\.called_functions\.contains\(&id\);', gft))
         aag = normws(fn_body(gm, "append_arguments_for_globals"))
